@@ -100,7 +100,7 @@ SPECS['C03'] = dict(
 
 SPECS['C07'] = dict(
     jobs=tree_jobs, level='exploration', technique='exhaustive buffer-size sweep (n = 0..size+2, exact heap blocks with sentinel fill under ASan) over generated trees; encoder x value x n sweep',
-    rule='For every tree of the C03 campaigns: every n in 0..size+2 with an exactly n-byte heap block filled with 0xC5: cbor_serialize returns cbor_serialized_size iff n >= size else 0, bytes [size,n) stay 0xC5, ASan guards everything past n; cbor_serialize_alloc returns size, sets *buffer_size = size (or accepts NULL), the block it obtained is exactly size bytes and holds the same bytes. ENCN: every cbor_encode_* x boundary/seeded values x n in 0..10: returns 0 with the buffer untouched, or the head length with only those bytes written and equal to the reference head. Cases are trees (each sweeps all n; counters.tree_n_pairs is the number of (tree,n) pairs) and (encoder,value) pairs. Non-trivial = tree with >=2 nodes, an indefinite item or size >= 3. cbor_serialize and every encoder are additionally called with a really mapped buffer of 2^31-1 .. 2^32+9 bytes.',
+    rule='For every tree of the C03 campaigns: every n in 0..size+2 with an exactly n-byte heap block filled with 0xC5: cbor_serialize returns cbor_serialized_size iff n >= size else 0, bytes [size,n) stay 0xC5, ASan guards everything past n; cbor_serialize_alloc returns size, sets *buffer_size = size (or accepts NULL), the block it obtained is exactly size bytes and holds the same bytes. ENCN: every cbor_encode_* x boundary/seeded values x n in 0..10: returns 0 with the buffer untouched, or the head length with only those bytes written and equal to the reference head. Cases are trees (each sweeps all n; counters.tree_n_pairs is the number of (tree,n) pairs) and (encoder,value) pairs. Non-trivial = tree with >=2 nodes, an indefinite item or size >= 3. cbor_serialize and every encoder are additionally called with a really mapped buffer of 2^31-1 .. 2^32+9 bytes. After all that the root container (if it takes one) gets one more element and is measured and serialized again: the size must follow the change.',
     assumptions=TREE_ASSUME,
     level_text='Exploration: for each generated tree the buffer-size dimension is exhaustive; trees and encoder values are enumerated/sampled as in C03.',
     level_note='Writes outside the first n bytes are detected by ASan red zones of the exactly-sized block.')
